@@ -1,7 +1,7 @@
 PROP = {
     "regen_files": ["GenDeleg.v", "GenPipe.v", "GenSigs.v"],
     "num": 8,
-    "runs": [{"tag": "c08", "bin": "c08"},
+    "runs": [{"tag": "c08", "bin": "c08", "features": ["forms"]},
              # caller programs compiled separately (harness/src/bin/gcall.rs): the operations used from code generic over the
              # lengths / element type with exactly the published impl bounds, and with plain method syntax (direct oracles)
              {"tag": "c08call", "bin": "gcall", "no_default_features": True, "args": ["--prop", "C08"], "model": False}],
